@@ -105,10 +105,13 @@ def gen_case(rng):
         cut = rng.randint(1, len(nm) - 1)
         steps[k:k + 1] = [['print', nm[:cut].hex()], ['pause', 1.6 * T], ['print', nm[cut:].hex()]]
         split = True
+    Tc = 20 if big else T
+    if tail == 'eof' and timeout_event is None and not split and rng.random() < 0.25:
+        Tc = -1          # "the default": no pause in this dialogue comes anywhere near it
     return {'enc': enc, 'steps': steps, 'events': events, 'overlap': overlap, 'form': rng.choice(['dict', 'list']),
             'eof_event': eof_event, 'timeout_event': timeout_event, 'code': code, 'stop_at': stop_at,
             'withexitstatus': rng.random() < 0.7, 'runu': enc is not None and rng.random() < 0.5,
-            'T': 20 if big else T, 'split_prompt': split}
+            'T': Tc, 'split_prompt': split}
 
 
 class Book(object):
